@@ -82,6 +82,14 @@ pub fn apply_manip(cfg: &FileCfg, dir: &Path, m: &Manip) {
                     let _ = std::fs::remove_file(dir.join(&f.name));
                 }
             }
+            // direct namings: the current file is the newest member of the family (if it is plain)
+            if cfg.nam().is_some_and(|n| !n.rename_style()) {
+                if let Some(l) = fam.last() {
+                    if matches!(l.parsed.kind, Kind::Rotated(_)) && !l.parsed.gz {
+                        let _ = std::fs::remove_file(dir.join(&l.name));
+                    }
+                }
+            }
         }
         Manip::ShiftNumbersHigh => {
             if !matches!(cfg.nam(), Some(Nam::Numbers | Nam::NumbersDirect)) {
